@@ -71,25 +71,20 @@ extern ssize_t mpt_encode_string(MPT_STRUCT(encode_state) *info, const struct io
 		if (!off) {
 			return MPT_ERROR(MissingData);
 		}
-		/* no active message, remove endbyte */
-		if (!(base)[off-1]) {
-			--off;
-		}
 		while (len--) {
-			struct iovec tmp;
-			ssize_t pos;
-			
-			tmp.iov_base = base;
-			tmp.iov_len  = off;
-			
-			/* find message separator */
-			if ((pos = mpt_memrchr(&tmp, 1, info->_ctx)) >= 0) {
-				off = pos;
-				continue;
+			const uint8_t end = info->_ctx;
+			/* no data left */
+			if (!off) {
+				return MPT_ERROR(MissingData);
 			}
-			return MPT_ERROR(MissingData);
+			/* no active message, remove endbyte */
+			if (base[off-1] == end) {
+				--off;
+			}
+			/* back to previous message separator */
+			while (off && base[off-1] != end) --off;
 		}
-		info->done -= off;
+		info->done = off;
 		
 		return off;
 	}
